@@ -1704,6 +1704,10 @@ class PSBTOut:
                     )
         elif self.witness_script:
             if self.redeem_script:
+                if not script_pubkey.is_p2sh() or not self.redeem_script.is_p2wsh():
+                    raise ValueError(
+                        "WitnessScript and RedeemScript provided for non-p2sh-p2wsh output"
+                    )
                 h160 = script_pubkey.commands[1]
                 if self.redeem_script.hash160() != h160:
                     raise ValueError(
